@@ -6,10 +6,12 @@ import (
 	"encoding/json"
 	"fmt"
 	"io"
+	"io/ioutil"
 	"os"
 	"path/filepath"
 	"sort"
 	"strings"
+	"sync"
 	"syscall"
 	"time"
 	"unsafe"
@@ -26,19 +28,21 @@ import (
 // "restart" would not. The parent drives it with one JSON command per line on stdin, one JSON answer per line on stdout.
 
 type Cmd struct {
-	Op   string   `json:"op"`             // write | sync | pipe | delpipe | drop | round | observe | range | stop
-	Dest string   `json:"dest,omitempty"` // round: the tags of the pipe's destination partition
-	Skip int      `json:"skip,omitempty"` // round: source events the pipe is known to have passed over (it lost its position in a crash)
-	Cond string   `json:"cond,omitempty"` // pipe: the source condition (default: one that matches no partition)
-	N    int      `json:"n,omitempty"`    // round: the deadline of the wait in ms (default 40 s)
-	Tags string   `json:"tags,omitempty"`
-	Ts   []int64  `json:"ts,omitempty"`
-	Name string   `json:"name,omitempty"`
-	Lo   int64    `json:"lo,omitempty"`
-	Hi   int64    `json:"hi,omitempty"`
-	Know []string `json:"know,omitempty"` // observe: the tag lines to look at
-	Soft *int64   `json:"soft,omitempty"` // write: files can not grow past this size while the write runs (the tag-index save fails)
-	Lim  *int64   `json:"lim,omitempty"`  // stop, write: file size limit set just before the shutdown sequence / the write runs (crash injection)
+	Op     string   `json:"op"`             // write | sync | pipe | delpipe | drop | hold | burst | round | observe | range | stop
+	Dest   string   `json:"dest,omitempty"` // round: the tags of the pipe's destination partition
+	Skip   int      `json:"skip,omitempty"` // round: source events the pipe is known to have passed over (it lost its position in a crash)
+	Cond   string   `json:"cond,omitempty"` // pipe: the source condition (default: one that matches no partition)
+	N      int      `json:"n,omitempty"`    // round: the deadline of the wait in ms (default 40 s)
+	Tags   string   `json:"tags,omitempty"`
+	Ts     []int64  `json:"ts,omitempty"`
+	Name   string   `json:"name,omitempty"`
+	Lo     int64    `json:"lo,omitempty"`
+	Hi     int64    `json:"hi,omitempty"`
+	Know   []string `json:"know,omitempty"`   // observe: the tag lines to look at
+	Create []string `json:"create,omitempty"` // burst: pipes created ...
+	Delete []string `json:"delete,omitempty"` // ... and pipes deleted, all at the same time
+	Soft   *int64   `json:"soft,omitempty"`   // write: files can not grow past this size while the write runs (the tag-index save fails)
+	Lim    *int64   `json:"lim,omitempty"`    // stop, write: file size limit set just before the shutdown sequence / the write runs (crash injection)
 }
 
 type PartView struct {
@@ -168,6 +172,57 @@ func serveMain(args []string) {
 				err = nil
 			}
 			out.Encode(ans(err))
+		case "hold":
+			// the index rebuilder gets no worker: what a write finds inconsistent stays as it is until the process ends
+			srv.Partitions.VC02HoldRebuilder()
+			out.Encode(Ans{Ok: true})
+		case "burst":
+			// many clients change the pipe definitions at the same moment; when every request is acknowledged the answer carries
+			// what the definitions' file holds now, i.e. what a SIGKILL at this moment would leave
+			var wg sync.WaitGroup
+			gate := make(chan struct{})
+			var mu sync.Mutex
+			var firstErr error
+			run := func(f func() error) {
+				wg.Add(1)
+				go func() {
+					defer wg.Done()
+					<-gate
+					if err := f(); err != nil {
+						mu.Lock()
+						if firstErr == nil {
+							firstErr = err
+						}
+						mu.Unlock()
+					}
+				}()
+			}
+			for _, n := range c.Create {
+				n := n
+				run(func() error {
+					_, err := srv.Pipes.CreatePipe(pipe.Pipe{Name: n, TagsCond: "never=matches"})
+					return err
+				})
+			}
+			for _, n := range c.Delete {
+				n := n
+				run(func() error { return srv.Pipes.DeletePipe(n) })
+			}
+			close(gate)
+			wg.Wait()
+			a := ans(firstErr)
+			if data, err := ioutil.ReadFile(registryFile(dir)); err == nil {
+				var ps []pipe.Pipe
+				if json.Unmarshal(data, &ps) == nil {
+					for _, p := range ps {
+						a.Pipes = append(a.Pipes, p.Name)
+					}
+				} else {
+					a.Pipes = []string{"<the definitions' file does not parse>"}
+				}
+			}
+			sort.Strings(a.Pipes)
+			out.Encode(a)
 		case "delpipe":
 			err := srv.Pipes.DeletePipe(c.Name)
 			if err != nil && strings.Contains(strings.ToLower(err.Error()), "not found") {
